@@ -367,7 +367,10 @@ func (c *Chain[K, E]) WriteChain(store *stor.Stor) (uint64, Chain[K, E]) {
 	if no > 0 && merge < no {
 		prevOff = c.Offs[no-merge-1]
 	}
-	off := c.Write(store, prevOff, lastMod)
+	// when flattening an existing chain, write even if there is nothing left
+	// (everything deleted), otherwise the old chunks would stay current
+	// and the deleted items would come back
+	off := c.write(store, prevOff, lastMod, lastMod == All && no > 0)
 	if off == 0 {
 		if no > 0 {
 			off = c.Offs[no-1] // nothing written, return current chain
@@ -394,6 +397,11 @@ func nmerge(no, clock int) int {
 }
 
 func (ht Hamt[K, E]) Write(st *stor.Stor, prevOff uint64, lastMod int) uint64 {
+	return ht.write(st, prevOff, lastMod, false)
+}
+
+func (ht Hamt[K, E]) write(st *stor.Stor, prevOff uint64, lastMod int,
+	force bool) uint64 {
 	size := 0
 	ck := uint32(0)
 	for it := range ht.All() {
@@ -408,7 +416,7 @@ func (ht Hamt[K, E]) Write(st *stor.Stor, prevOff uint64, lastMod int) uint64 {
 			size += it.StorSize()
 		}
 	}
-	if size == 0 && (prevOff == 0 || lastMod != All) {
+	if size == 0 && !force && (prevOff == 0 || lastMod != All) {
 		return 0
 	}
 	size += 3 + 5 + cksum.Len + 4
